@@ -158,12 +158,12 @@ Definition check_err (impl : val) (entries : list val) (e : exn) (bound : Z) : v
 
 Section Stream.
 Variable magic : bytes.
-Variable ms : list msg.
-Let frames := map (spec_frame H magic) ms.
+(* computed once by the caller (hashing): the SPEC frames and what the wire carries of each message *)
+Variable frames : list bytes.
+Variable cms : list msg.
 Let stream := concat frames.
 Let total := lenZ stream.
 Let ends := ends_from 0 frames.
-Let cms := map (carried PROTO_VERSION) ms.
 Definition all_entries : list val := map (fun me => entry_msg (fst me) (snd me)) (combine cms ends).
 Definition entries_before (j : nat) : list val := firstn j all_entries.
 Definition start_of (j : nat) : Z := match j with O => 0 | S k => nth k ends 0 end.
@@ -239,7 +239,8 @@ Definition run_C18 (op : Z) (args : list val) : val :=
       match opt_map msg_of_val mvs with
       | Some ms =>
           let magic := magic_of chain in
-          let '(expected_stream, verdict) := judge_stream magic ms kind (Z.to_nat j) p q impl in
+          let frames := map (spec_frame H magic) ms in
+          let '(expected_stream, verdict) := judge_stream magic frames (map (carried PROTO_VERSION) ms) kind (Z.to_nat j) p q impl in
           if negb (forallb in_scope ms) then VList [model_stream magic stream; unconstrained]
           else if bytes_eqb expected_stream stream then VList [model_stream magic stream; verdict]
           else VList [VErr 998; VInt 0; VBytes expected_stream]   (* reference encoder and SPEC disagree *)
